@@ -91,6 +91,22 @@ func (h *Cache) PullExact(messageSequence uint16, isClient bool) (*HandshakeCach
 	return nil, false
 }
 
+// Discard removes a message from the cache. Post-handshake messages belong to
+// no transcript: kept after they were handled, they would accumulate for as
+// long as the peer goes on sending them.
+func (h *Cache) Discard(discarded *HandshakeCacheItem) {
+	h.mu.Lock()
+	defer h.mu.Unlock()
+
+	for i, item := range h.cache {
+		if item == discarded {
+			h.cache = append(h.cache[:i], h.cache[i+1:]...)
+
+			return
+		}
+	}
+}
+
 // Pull returns a list handshakes that match the requested rules.
 // The list will contain null entries for rules that can't be satisfied.
 // Multiple entries may match a rule, but only the last match is returned (ie ClientHello with cookies).
